@@ -4,6 +4,7 @@ import (
 	"fmt"
 	"go/ast"
 	"go/constant"
+	"go/types"
 	"sort"
 	"strings"
 )
@@ -240,4 +241,97 @@ func c20UnknownErrorText(c *Ctx) {
 		}
 	}
 	c.Check(ok && n > 0, rule, role, fn, "unknown-error-text-in-debug-only", "the generic error built for an unrecognised error has constant name, description and hint; the original text goes to the debug field only", why, w)
+}
+
+// C20.R12 — a storage failure's text is debug detail. Handlers answer storage
+// failures with a fixed error and put the store's message into the debug field
+// (WithDebug / WithWrap), which the writers emit only when the operator enabled
+// it. The hint and the description are always emitted: in every error a handler
+// or endpoint returns, no WithHint / WithHintf / WithDescription argument is
+// built from the error a storage call returned (its Error() text or the value
+// itself under a %s / %v verb).
+func c20StorageTextInHints(c *Ctx) {
+	const rule = "C20.R12"
+	isStorageCallTerm := func(r *Term) bool {
+		if r.Op != "icall" {
+			return false
+		}
+		n := r.Name
+		if i := strings.IndexByte(n, '#'); i >= 0 {
+			n = n[:i]
+		}
+		return storageMutators[n] || storageLookups[n] || n == "storage.MaybeBeginTx" || n == "storage.MaybeCommitTx" || n == "storage.MaybeRollbackTx"
+	}
+	// the error result of a storage call: the call itself when it returns only an error, its last
+	// result otherwise (by the callee's signature)
+	storageErrText := func(t *Term) bool {
+		found := false
+		var rec func(s *Term, underRet bool)
+		rec = func(s *Term, underRet bool) {
+			if found {
+				return
+			}
+			if s.Op == "ret" && len(s.Args) == 1 && isStorageCallTerm(s.Args[0]) {
+				if cal := s.Args[0].Callee; cal != nil {
+					if sig, ok := cal.Type().(*types.Signature); ok && s.Name == fmt.Sprint(sig.Results().Len()-1) {
+						found = true
+					}
+				}
+				return
+			}
+			if isStorageCallTerm(s) && !underRet {
+				if cal := s.Callee; cal != nil {
+					if sig, ok := cal.Type().(*types.Signature); ok && sig.Results().Len() == 1 {
+						found = true
+					}
+				}
+			}
+			for _, a := range s.Args {
+				rec(a, s.Op == "ret")
+			}
+		}
+		rec(t, false)
+		return found
+	}
+	n := 0
+	for _, en := range c.allEntries() {
+		if !c.P.CallsNamedAny(en.fn, 4, storageMutators, storageLookups) {
+			continue
+		}
+		cfg := en.cfg
+		base := cfg.Inline
+		if base == nil {
+			base = defaultInline
+		}
+		cfg.Inline = c.storageReaching(base)
+		ex := c.Explore(en.fn, cfg, en.tag+"-storage")
+		if !c.complete(ex, rule, en.role, en.fn) {
+			continue
+		}
+		n++
+		ok := true
+		why := ""
+		var w *Path
+		for _, p := range ex.Paths {
+			er := p.ErrRet()
+			if er == nil {
+				continue
+			}
+			er.Walk(func(s *Term) bool {
+				if (s.IsCall(".WithHint") || s.IsCall(".WithHintf") || s.IsCall(".WithDescription") || s.IsCall(".WithHintIDOrDefaultf")) && len(s.Args) > 1 {
+					for _, a := range s.Args[1:] {
+						if storageErrText(a) {
+							ok, w = false, p
+							why = "the text of a storage error is placed in " + strings.TrimPrefix(s.Name, ".") + " (" + clip(a.Pretty(), 70) + ")"
+						}
+					}
+				}
+				return true
+			})
+		}
+		c.Check(ok, rule, en.role, en.fn, "storage-text-in-debug-only", "no hint or description of a returned error is built from the error a storage call returned", why, w)
+	}
+	if n < 10 {
+		c.RoleUnmatched(rule, "storage-callers", fmt.Sprintf("at least 10 handler/endpoint functions calling storage; found %d", n))
+	}
 }
